@@ -342,7 +342,34 @@ def _emit_behaviours(ctx: Ctx, n: int) -> list[tuple[tuple[int, int], list]]:
     ctx.cov["states"] += r.distinct
     ctx.cov["transitions"] += r.generated
     if not ctx.thorough:
-        conc = ctx.rng.sample(conc, min(len(conc), 330))
+        # quick: exhaustive up to renaming of the (interchangeable) calls, restricted to classes in which two calls overlap
+        # in time and at least two positions occur; sequential / single-position classes are covered by the simulated behaviours
+        def canon(h: list) -> tuple:
+            m: dict = {}
+            k = []
+            for e in h:
+                if e[0] in ("begin", "finish"):
+                    m.setdefault(e[1], len(m))
+                    k.append((e[0], m[e[1]], tuple(e[6]) if e[0] == "begin" else None))
+            return tuple(k)
+
+        def interesting(k: tuple) -> bool:
+            open_, ov = set(), False
+            for e in k:
+                if e[0] == "begin":
+                    ov = ov or bool(open_)
+                    open_.add(e[1])
+                else:
+                    open_.discard(e[1])
+            return ov and len({e[2] for e in k if e[0] == "begin"}) >= 2
+
+        reps: dict = {}
+        for h in conc:
+            k = canon(h)
+            if interesting(k):
+                reps.setdefault(k, h)
+        conc = [reps[k] for k in sorted(reps)]
+        ctx.cov["concurrency_classes_up_to_symmetry"] = len(conc)
     out = [((10, 0), h) for h in conc] + out
     seen = set()
     uniq = []
@@ -441,7 +468,7 @@ def run(ctx: Ctx) -> int:
     _model_check(ctx)
     refdc.ensure_ntlm_users()
     emitted = _emit_behaviours(ctx, ctx.pick(1200, 12000))
-    emitted = emitted[: ctx.pick(900, 9000)]
+    emitted = emitted[: ctx.pick(820, 9000)]
     rows = _run_histories(ctx, emitted, 0, "tlc-behaviour")
     rnd = _random_histories(ctx, ctx.pick(320, 6000))
     rows += _run_histories(ctx, rnd, 1_000_000, "random-driver")
